@@ -105,6 +105,8 @@ def step_text(st, names):
         return 'I do nothing'
     if k == 'repeat':
         return 'I repeat "I send event e%d" %d times' % (a, n)
+    if k == 'reproduce':
+        return 'I reproduce "library"'
     if k in ('entered', 'exited', 'active'):
         return 'state %s is %s' % (names[a], k)
     if k in ('not_entered', 'not_exited', 'not_active'):
@@ -135,7 +137,8 @@ def run_chart(args):
     ci, c, scen = args
     from sismic.bdd import execute_bdd
     sc, names = build_plain(c)
-    lines = ['Feature: generated']
+    lines = ['Feature: generated', '', '  Scenario: library', '    Given I send event e1', '    When I wait 1 seconds',
+             '    Given I send event e2 with v=7', '    Then statechart is not in a final configuration']
     for sid, hist in scen:
         lines.append('')
         lines.append('  Scenario: s%d' % sid)
@@ -155,7 +158,7 @@ def run_chart(args):
     data = json.load(open(out))
     for feat in data:
         for el in feat.get('elements', []):
-            if el.get('type') != 'scenario':
+            if el.get('type') != 'scenario' or el['name'] == 'library':
                 continue
             sid = int(el['name'][1:])
             res[sid] = [(s.get('result') or {}).get('status', 'none') for s in el['steps']]
@@ -202,13 +205,13 @@ def main(prop, tier, seed, replay_path=None):
                     r_ = rng.random()
                     if r_ < 0.55 or not h:
                         kw = rng.choice(['given', 'when', 'when'])
-                        k = rng.choice(['send', 'send', 'send', 'wait', 'nothing', 'nothing', 'repeat'])
+                        k = rng.choice(['send', 'send', 'send', 'wait', 'nothing', 'nothing', 'repeat', 'reproduce'])
                         if k == 'send':
                             h.append(dict(kw=kw, kind='send', a=rng.choice(c['events']), b=rng.choice([0, 7]), n=0))
                         elif k == 'wait':
                             h.append(dict(kw=kw, kind='wait', a=rng.choice([1, 2]), b=0, n=0))
-                        elif k == 'nothing':
-                            h.append(dict(kw=kw, kind='nothing', a=0, b=0, n=0))
+                        elif k in ('nothing', 'reproduce'):
+                            h.append(dict(kw=kw, kind=k, a=0, b=0, n=0))
                         else:
                             h.append(dict(kw=kw, kind='repeat', a=rng.choice(c['events']), b=0, n=2))
                     else:
